@@ -94,6 +94,9 @@ pub fn gen_params(rng: &mut Rng, verif_seed: u64, tier: &str) -> EpisodeParams {
             }
         }
     }
+    // the wide profile exists to push a process through many distinct characters while earlier universes recur
+    let wide = profile == 9;
+    let n_runs = if wide { n_runs.max(20) } else { n_runs };
     EpisodeParams {
         n_runs,
         max_clients,
@@ -108,7 +111,7 @@ pub fn gen_params(rng: &mut Rng, verif_seed: u64, tier: &str) -> EpisodeParams {
         pool,
         same_universe_pct: *rng.pick(&[0u64, 50, 100]),
         migrate_pct: *rng.pick(&[0u64, 0, 20, 50]),
-        fresh_universe_pct: *rng.pick(&[0u64, 10, 30]),
+        fresh_universe_pct: if wide { 60 } else { *rng.pick(&[0u64, 10, 30]) },
     }
 }
 
